@@ -53,11 +53,15 @@ const (
 	aBuilt    = `(str "@DIR@" "/secret.zy")`
 	// a path spelled as a SYMBOL: the secret file also exists as ./c08sym in the working directory, so entries
 	// that receive their arguments unevaluated (macros, builders, special forms) or accept symbols see a file name
+	aSecretMP = `"@SECRETMP@"`
+	// data arguments: bytes that are NOT a well-formed msgpack value (0xc1 is never used; a 5-byte string cut short)
+	aRawBad   = `(unbase64 "wQ==")`
+	aRawTrunc = `(unbase64 "pWE=")`
 	aSymFile  = symFileName
 	aQSymFile = `(quote ` + symFileName + `)`
 )
 
-var pool1 = []string{aSecret, aOut, aExisting, aCmd, aEnv, aNewVar, aVal, aInt, aArr, aSym, aBuilt, aSymFile, aQSymFile}
+var pool1 = []string{aSecret, aOut, aExisting, aCmd, aEnv, aNewVar, aVal, aInt, aArr, aSym, aBuilt, aSymFile, aQSymFile, aSecretMP, aRawBad, aRawTrunc}
 
 var pool2 = [][]string{
 	{aSecret, aOut}, {aOut, aSecret}, {aOut, aVal}, {aExisting, aVal}, {aEnv, aVal}, {aNewVar, aVal},
@@ -94,7 +98,7 @@ func quickShapes() [][]string {
 
 func shapeTag(args []string) string {
 	n := map[string]string{aSecret: "secret", aOut: "out", aExisting: "existing", aCmd: "cmd", aEnv: "env", aNewVar: "newvar",
-		aVal: "val", aInt: "int", aArr: "arr", aSym: "sym", aBuilt: "built", aSymFile: "symfile", aQSymFile: "qsymfile"}
+		aVal: "val", aInt: "int", aArr: "arr", aSym: "sym", aBuilt: "built", aSymFile: "symfile", aQSymFile: "qsymfile", aSecretMP: "secretmp", aRawBad: "rawbad", aRawTrunc: "rawtrunc"}
 	var p []string
 	for _, a := range args {
 		p = append(p, n[a])
@@ -201,7 +205,12 @@ func grammarJobs(cfg string, entries []Entry, n int, rng *lib.Rng) []Job {
 		return js
 	}
 	pick := func() Entry { return entries[rng.Intn(len(entries))] }
-	atom := func() string { return pool1[rng.Intn(len(pool1))] }
+	atom := func() string {
+		if rng.Intn(24) == 0 {
+			return symFileName + ".Secret"
+		}
+		return pool1[rng.Intn(len(pool1))]
+	}
 	var expr func(depth int) (string, string, []string)
 	expr = func(depth int) (src, abs string, used []string) {
 		if depth <= 0 || rng.Intn(4) == 0 {
@@ -260,6 +269,63 @@ func grammarJobs(cfg string, entries []Entry, n int, rng *lib.Rng) []Job {
 		}
 		js = append(js, Job{Cfg: cfg, Entry: strings.Join(used, " "), Kind: "program", Form: form, Script: s, Abs: a,
 			Tags: []string{"form:" + form, fmt.Sprintf("entries:%d", len(used))}})
+	}
+	return js
+}
+
+
+// foreignNameJobs: the VM hands a builtin the NAME it was called under, and several builtins dispatch on it
+// (regexpFind / regexpMatch, send / <!, = / :=). For a call through a symbol value that name is the symbol's,
+// not the function's own: (def M F) (def c08v (quote M)) (c08v args) runs F's code under the name M.
+// Every representative function object F of the configuration is run under every foreign name M.
+func foreignNameJobs(cfg string, f Entry, foreign []string) []Job {
+	var js []Job
+	for _, m := range foreign {
+		if m == f.Name {
+			continue
+		}
+		for _, sh := range [][]string{{aSecret}, {aSecretMP}, {aCmd}, {aEnv}} {
+			a := strings.Join(sh, " ")
+			js = append(js, Job{Cfg: cfg, Entry: f.Name, Kind: f.Kind, Form: "foreign-name",
+				Pre:    []string{"(def " + m + " " + f.Name + ")", "(def c08v (quote " + m + "))"},
+				Script: "(c08v " + a + ")",
+				Abs:    "(q (d " + m + " r:" + f.Name + ") (d c08v (s quote r:" + m + ")) (c r:c08v" + ks(len(sh)) + "))",
+				Tags:   []string{"form:foreign-name", "kind:" + f.Kind, shapeTag(sh)}})
+		}
+	}
+	return js
+}
+
+// mentionJobs: programs that merely MENTION names nothing binds -- plain, dotted, called, assigned from --
+// while files with names a resolver could derive from them (./c08sym, ./c08sym.zy) exist in the working directory.
+func mentionJobs(cfg string) []Job {
+	n := symFileName
+	texts := [][2]string{
+		{n, "r:" + n},
+		{n + ".Secret", "r:" + n + ".Secret"},
+		{"(" + n + ".Get)", "(c r:" + n + ".Get)"},
+		{"(" + n + ".Get 1 " + aVal + ")", "(c r:" + n + ".Get k k)"},
+		{"(def c08x " + n + ".Secret)", "(d c08x r:" + n + ".Secret)"},
+		{"(println " + n + ".Secret)", "(c r:println r:" + n + ".Secret)"},
+		{"(" + n + " 1)", "(c r:" + n + " k)"},
+		{"(" + n + ".zy)", "(c r:" + n + ".zy)"},
+		{n + ".zy", "r:" + n + ".zy"},
+		{"(." + n + ")", "(c r:" + n + ")"},
+		{"(set " + n + ".Secret 1)", "(s set r:" + n + ".Secret k)"},
+		{"{c08y = " + n + ".Secret}", "(s infix r:" + n + ".Secret)"},
+		{"(fn [] " + n + ".Secret)", "(s fn r:" + n + ".Secret)"},
+		{"((fn [] (" + n + ".Get)))", "(c (s fn (c r:" + n + ".Get)))"},
+		{"(eval (quote " + n + ".Secret))", "(e r:" + n + ".Secret)"},
+		{"(defined? (quote " + n + ".Secret))", "(c r:defined? k)"},
+		{"(defined? \"" + n + ".Secret\")", "(c r:defined? k)"},
+		{"(-> " + n + " Secret:)", "(c r:-> r:" + n + " k)"},
+		{"(hget " + n + " Secret:)", "(c r:hget r:" + n + " k)"},
+		{"$" + n, "k"},
+	}
+	var js []Job
+	for _, t := range texts {
+		js = append(js, Job{Cfg: cfg, Entry: n, Kind: "mention", Form: "mention", Script: t[0], Abs: t[1],
+			Tags: []string{"form:mention", "kind:mention"}})
 	}
 	return js
 }
